@@ -155,3 +155,37 @@ add("C07", "independent float64 reference pipeline for scores + consistency laws
     "is C08's job). FSC invariance is judged on inputs whose shells all carry power. Boxes below 8 voxels are skipped for "
     "the arg-max law (circular PCC landscapes clip).",
     "DESIGN.md section 4 C07")
+
+add("C09", "one-hot identity encoding of split membership + float64 mean reference, icontract K6, scheduler matrix",
+    "average() is compared with the float64 mean of asnumpy() for single/batch/group/mock loaders, tomogram chunkings and "
+    "synchronous / threaded (1-8 workers) / seeded shuffled-order schedulers; batch = count-weighted mean of per-tomogram "
+    "averages; group average[key] = that group's own loader average. With one-hot sub-volumes (molecule i has a delta at "
+    "voxel i) the half-maps of average_split reveal the two index sets: disjoint, exhaustive, non-empty for N >= 2, "
+    "reproducible per (N, seed) across loaders/schedulers, count-weighted recombination == average; on random data the "
+    "half-maps must equal the means over exactly those sets, also through fsc_with_halfmaps and LoaderGroup.average_split.",
+    "Identity orientation, integer sample coordinates (orders 0/1) so that the loaded blocks are known exactly.",
+    "DESIGN.md section 4 C09")
+
+add("C10", "schedule/interleaving perturbation vs synchronous reference: scheduler matrix, shuffled executors, sys.monitoring yield injection, cache audit log, memo fingerprints",
+    "Eleven operations (asnumpy, average, average_split, align with/without rotations for all four models sharing one "
+    "model object, align_multi_templates, score with one Backend per task, construct_landscape, apply, classify, "
+    "LoaderGroup.align) are run under the synchronous scheduler and then under perturbed schedules: threads with 1-16 "
+    "workers, seeded random task orders (custom Executor handed to dask), seeded sleep(0) injected by sys.monitoring at "
+    "statement starts of all acryo code and at every call boundary inside the template-cache code with a 1e-6 s switch "
+    "interval, seeded task delays, and numpy vs dask tomograms in several chunkings. Oracle: no exception, outputs equal "
+    "to the reference, memoised helper arrays unchanged, Backend default restored; declared shapes of lazy arrays equal "
+    "computed shapes for integer/fractional ranges, upsample 1-4, single/multi template.",
+    "Interleavings are sampled, not enumerated: held = no difference on the perturbed runs of this execution (counts of "
+    "injected yields, shuffled tasks, distinct signatures in the evidence). Only GIL hand-over points CPython really has "
+    "(statement starts, call boundaries) are used. cupy backend absent.",
+    "DESIGN.md section 4 C10, section 3.6")
+
+add("C18", "exact-SVD reference on planted low-rank stacks over stack chunkings and schedulers; planted classes through loader.classify",
+    "Image stacks with planted orthogonal components (singular values separated 3x, noise floor 1e-5) are classified as "
+    "numpy arrays and as dask arrays chunked along images, space or both, under three schedulers: singular values, "
+    "components (up to sign), projections, get_bases, predict and the cluster assignment of two planted groups are compared "
+    "with numpy.linalg.svd of the centred masked stack. loader.classify on tomograms with two planted particle classes: "
+    "the label column is integer, attached in molecule order, and nothing else about molecules or source changes.",
+    "Stacks with more than 500 features take the randomised solver whose seed is drawn from numpy's global RNG; the "
+    "planted spectral gap makes its error far below the 2e-3 tolerance.",
+    "DESIGN.md section 4 C18")
